@@ -15,7 +15,7 @@ import (
 var (
 	IntPool   = []int64{0, 1, -1, 2, 3, 7, 10, -3, 100, 255, 256, 257, 512, 4096, 32768, 65280, 9007199254740992, 9007199254740993, math.MaxInt64 - 1, 65533, 65534, 65535, 65536, 65537, -65535, 1 << 31, math.MaxInt64, math.MinInt64 + 1, 12345}
 	FloatPool = []float64{0, 0.5, -1.5, 2, 3.25, 65535, 1e10, 0.1, -0.25, 100.75, math.Copysign(0, -1)}
-	StrPool   = []string{"", "a", "A", "ab", "abc", "10", "9", "héllo", "狐犬", " x ", "Hello World", "line1\nline2", "a/b", "q\"uote", "it's", "tab\there", "back\\slash", "ß", "é"}
+	StrPool   = []string{"", "a", "A", "ab", "abc", "10", "9", "héllo", "狐犬", " x ", "Hello World", "line1\nline2", "a/b", "q\"uote", "it's", "tab\there", "back\\slash", "ß", "é", "50% off", "%d%s"}
 	RegexPool = []string{"a", "^h", "b$", "[0-9]+", "l+o", "^$", "x|y", "a/b", "(?i)hello", "(?i)^A", "(?m)^line2$", "\\d", "w.rld"}
 )
 
